@@ -14,6 +14,7 @@ import (
 
 	"github.com/pingcap/failpoint"
 	"github.com/pingcap/kvproto/pkg/errorpb"
+	"github.com/pingcap/kvproto/pkg/kvrpcpb"
 	tikverr "github.com/tikv/client-go/v2/error"
 	"github.com/tikv/client-go/v2/tikvrpc"
 	"github.com/tikv/client-go/v2/verifh/vrep"
@@ -394,6 +395,53 @@ type stickyFault struct {
 	// cleanupLost: from the fault on, none of the victim's clean-up requests (BatchRollback, PessimisticRollback)
 	// reaches the store either - the answer Commit gives must be true by itself, not made true by the clean-up
 	cleanupLost bool
+	// split: right after the lost request/response the region of that request is split (its epoch changes): the
+	// sender's retry with the old epoch is answered EpochNotMatch by the store itself, the committer regroups the
+	// batch, and only the regrouped requests (new epoch) meet the sticky region error
+	split bool
+}
+
+// reqKeys lists the keys a Prewrite / Commit request covers.
+func reqKeys(c *uni.Call) [][]byte {
+	var ks [][]byte
+	switch r := c.Req.(type) {
+	case *kvrpcpb.PrewriteRequest:
+		for _, m := range r.Mutations {
+			ks = append(ks, m.Key)
+		}
+	case *kvrpcpb.CommitRequest:
+		ks = append(ks, r.Keys...)
+	}
+	return ks
+}
+
+// stickySplitFaults: a commit-point request/response is lost, the region splits (between the keys of the request, or
+// next to its only key), and after the regroup the new regions answer nothing but RegionNotFound.
+func stickySplitFaults(sh Shape) []stickyFault {
+	var out []stickyFault
+	for _, f := range []fault{dropResponse(sh), faults(sh)[0]} {
+		f.name += "+then-split-then-only-region-not-found"
+		out = append(out, stickyFault{f: f, sticky: &errorpb.Error{Message: "injected", RegionNotFound: &errorpb.RegionNotFound{}}, split: true})
+	}
+	return out
+}
+
+// splitUnder splits the region request c went to: between its keys, else right after / at its only key.
+func splitUnder(env *Env, c *uni.Call) bool {
+	ks := reqKeys(c)
+	var cands [][]byte
+	for _, k := range ks[min(1, len(ks)):] {
+		cands = append(cands, k)
+	}
+	for _, k := range ks {
+		cands = append(cands, append(append([]byte(nil), k...), 0), k)
+	}
+	for _, k := range cands {
+		if env.U.SplitAt(k) {
+			return true
+		}
+	}
+	return false
 }
 
 // stickyFaults: a request/response is lost and the region answers nothing but region errors from then on.
@@ -542,6 +590,10 @@ type injected struct {
 	fired       atomic.Bool
 	sticky      *errorpb.Error
 	cleanupLost bool
+	// split plans: the region (id, version) the lost request was addressed to, and whether the split happened
+	split              bool
+	firedRID, firedVer atomic.Uint64
+	splitDone          atomic.Bool
 }
 
 // nFaultExec counts the fault executions of this process (rotation of the recovery companions)
@@ -564,6 +616,10 @@ func runFaults(r, tr *vrep.Report, sh Shape, primary string, plan []*injected) {
 		for _, in := range plan {
 			if in.cleanupLost && in.fired.Load() && (c.Cmd == tikvrpc.CmdBatchRollback || c.Cmd == tikvrpc.CmdPessimisticRollback) {
 				return uni.Action{Kind: uni.DropReq}
+			}
+			if in.split && in.fired.Load() && c.Cmd == in.pt.Cmd && c.RegionID == in.firedRID.Load() && c.RegionVer == in.firedVer.Load() {
+				// the retry with the old epoch reaches the store, which knows better (EpochNotMatch)
+				return uni.Action{}
 			}
 			if in.sticky != nil && in.fired.Load() && c.Cmd == in.pt.Cmd {
 				if sh.Async || sh.OnePC {
@@ -588,7 +644,18 @@ func runFaults(r, tr *vrep.Report, sh Shape, primary string, plan []*injected) {
 		if hit == nil {
 			return uni.Action{}
 		}
-		return hit.f.mk(env, c)
+		act := hit.f.mk(env, c)
+		if hit.split {
+			hit.firedRID.Store(c.RegionID)
+			hit.firedVer.Store(c.RegionVer)
+			sp := func() { hit.splitDone.Store(splitUnder(env, c)) }
+			if act.Kind == uni.DropReq {
+				act.Before = sp
+			} else {
+				act.After = sp
+			}
+		}
+		return act
 	})
 	rec := env.RunVictim(commitReturned)
 	env.U.Drain()
@@ -604,6 +671,40 @@ func runFaults(r, tr *vrep.Report, sh Shape, primary string, plan []*injected) {
 	if !anyFired {
 		r.Count("plan_not_reached", 1)
 		return
+	}
+	for _, in := range plan {
+		if !in.split || !in.fired.Load() || !in.splitDone.Load() {
+			continue
+		}
+		r.Count("sticky_split_plans_executed", 1)
+		// did the regroup happen: the store answered EpochNotMatch to the old epoch, and a later request of the same
+		// command went out under another (region, version)
+		epochSeq := int64(0)
+		regrouped, stuck := false, false
+		for _, c := range env.VictimCalls(rec.StartTS) {
+			if c.Cmd != in.pt.Cmd {
+				continue
+			}
+			old := c.RegionID == in.firedRID.Load() && c.RegionVer == in.firedVer.Load()
+			switch {
+			case old && c.RegionErr.GetEpochNotMatch() != nil && epochSeq == 0:
+				epochSeq = c.Seq
+			case !old && epochSeq != 0 && c.Seq > epochSeq:
+				regrouped = true
+				if c.RegionErr.GetRegionNotFound() != nil {
+					stuck = true
+				}
+			}
+		}
+		if epochSeq != 0 {
+			r.Count("sticky_split_epoch_not_match", 1)
+		}
+		if regrouped {
+			r.Count("sticky_split_regrouped", 1)
+		}
+		if stuck {
+			r.Count("sticky_split_regrouped_then_region_errors", 1)
+		}
 	}
 	asyncEffective := rec.IsAsync || rec.Is1PC || sh.Async || sh.OnePC
 	for _, in := range plan {
@@ -735,7 +836,7 @@ func runFaults(r, tr *vrep.Report, sh Shape, primary string, plan []*injected) {
 }
 
 func TestVerifC03(t *testing.T) {
-	r := vrep.New("C03", "c03-faults", "every small transaction shape x commit mode: a fault-free dry run yields the RPC trace of Commit (must not answer undetermined); then every single fault of {drop request, drop response, deliver-late, NotLeader, EpochNotMatch, ServerIsBusy, StaleCommand, region split at this RPC, another client expires the lock and resolves it at this RPC} at every RPC index, plus seed-sampled ordered double faults; after Commit returned: drain, late deliveries executed, clock past every TTL, observer reads + GC resolve pass, then the answer is checked against the MVCC truth (nil => committed everywhere; definite error => never visible; undetermined only when a commit-point request was lost); the recovering observer is, for sticky plans on async commit / 1PC (second phase lost for good after the answer) and every eighth execution, a resolver whose CheckTxnStatus / CheckSecondaryLocks / ResolveLock requests meet a region that split under them, and for another eighth a GC pass whose region splits between the scanned locks; every successful GC pass is held to its contract (no lock <= safe point left); distinct = distinct (shape, fault plan, answer, outcome)")
+	r := vrep.New("C03", "c03-faults", "every small transaction shape x commit mode: a fault-free dry run yields the RPC trace of Commit (must not answer undetermined); then every single fault of {drop request, drop response, deliver-late, NotLeader, EpochNotMatch, ServerIsBusy, StaleCommand, region split at this RPC, another client expires the lock and resolves it at this RPC} at every RPC index, plus seed-sampled ordered double faults; after Commit returned: drain, late deliveries executed, clock past every TTL, observer reads + GC resolve pass, then the answer is checked against the MVCC truth (nil => committed everywhere; definite error => never visible; undetermined only when a commit-point request was lost); sticky plans lose a request/response and let the region answer nothing but region errors until Commit returns, one family with a split of that region in between (the retry is answered EpochNotMatch, the batch is regrouped, only the regrouped requests meet the region errors); the recovering observer is, for sticky plans on async commit / 1PC (second phase lost for good after the answer) and every eighth execution, a resolver whose CheckTxnStatus / CheckSecondaryLocks / ResolveLock requests meet a region that split under them, and for another eighth a GC pass whose region splits between the scanned locks; every successful GC pass is held to its contract (no lock <= safe point left); distinct = distinct (shape, fault plan, answer, outcome)")
 	defer r.Finish(t)
 	tr := vrep.New("C04", "c04-on-c03", "C04 trace monitor over the C03 fault executions (retries, regrouped batches, resolver races)")
 	defer tr.Finish(t)
@@ -776,6 +877,19 @@ func TestVerifC03(t *testing.T) {
 					runFaults(r, tr, sh, primary, []*injected{{pt: pt, f: sf.f, sticky: sf.sticky, cleanupLost: sf.cleanupLost}})
 					r.Count("sticky_fault_executions", 1)
 				}
+				// the same, with an epoch change in between (regrouped batch): the primary's Commit of 2PC shapes, the
+				// commit-point requests of async commit / 1PC shapes
+				// (the plans at the Prewrite of async commit / 1PC shapes found a defect of the pinned tree -
+				// proposed_fixes/C03-9, repaired in /repo; VERIF_C03_SPLIT_PREWRITE=0 switches them off)
+				if ((sh.Async || sh.OnePC) && (pt.Cmd == tikvrpc.CmdCommit || os.Getenv("VERIF_C03_SPLIT_PREWRITE") != "0")) ||
+					(pt.Cmd == tikvrpc.CmdCommit && IsForeground(sh, pt, primary)) {
+					for _, sf := range stickySplitFaults(sh) {
+						if sh.Backend == uni.Uni && pt.Cmd == tikvrpc.CmdCommit && sf.f.name[:13] == "drop-response" {
+							continue // the same plan as drop-request there (see dropResponse)
+						}
+						runFaults(r, tr, sh, primary, []*injected{{pt: pt, f: sf.f, sticky: sf.sticky, split: true}})
+					}
+				}
 			}
 		}
 		// double faults: ordered pairs of (point, fault), sampled by the seed
@@ -799,6 +913,8 @@ func TestVerifC03(t *testing.T) {
 	r.Floor("faults_on_commit_point_rpcs", 10)
 	r.Floor("answer_undetermined", 3)
 	r.Floor("sticky_fault_executions", 50)
+	r.Floor("sticky_split_plans_executed", 10)
+	r.Floor("sticky_split_regrouped_then_region_errors", 10)
 	r.Floor("push_reads", 8)
 	// recovery under a stale region cache / a GC pass with a split must have been exercised
 	r.Floor("recovery:resolver-region-error", 20)
